@@ -3,13 +3,16 @@
    2 the verified content differs from the request (payload, content type, scheme, times truncated to
      seconds, attributes with key / criticality / value, agent, algorithm of the signer's key, chain)
    3 the bytes handed to the external signer are not the bytes whose signature verification checks
-   4 the signing object's own content differs from that of the returned bytes *)
+   4 the signing object's own content differs from that of the returned bytes
+   and, when no envelope was produced,
+   5 a valid request (the model signs it: sign = SOk, which is ValidReq by C08_signs_exactly_the_valid_requests)
+     with an honest signer was refused *)
 From NCG Require Export Run.SignCase.
 Definition null {A} (l : list A) : bool := match l with [] => true | _ => false end.
 Definition case := scase.
 Definition check_case (c : scase) : verdict :=
   if negb (s_out c =? 1) then
-    match m_sign c with SOk _ => (s_id c, 1, 0) | _ => if s_out c =? 0 then (s_id c, 0, 0) else (s_id c, 1, 0) end
+    match m_sign c with SOk _ => if s_honest c then (s_id c, 2, 5) else (s_id c, 1, 0) | _ => if s_out c =? 0 then (s_id c, 0, 0) else (s_id c, 1, 0) end
   else
   if negb (s_honest c) then (match m_sign c with SOk _ => (s_id c, 0, 0) | _ => (s_id c, 1, 0) end) else
   match s_verify c with
